@@ -187,10 +187,6 @@ func runLigate(c *mc.Ctx, frags []clone.Fragment, opt sched.Options) (sched.Outc
 	return out, parts
 }
 
-func once(body func(c *mc.Ctx)) mc.Stats {
-	return mc.Explore(mc.Options{DevBound: 0, PreemptBound: 0, MaxExecs: 1}, func(c *mc.Ctx) bool { body(c); return false })
-}
-
 func permutations(n int, f func(p []int)) {
 	p := make([]int, n)
 	for i := range p {
